@@ -2,6 +2,12 @@
 
 package fit
 
+import (
+	"bytes"
+
+	"github.com/tormoder/fit/dyncrc16"
+)
+
 // C16 — decode options only add information; unknown-item counts are exact.
 
 // H16a: a generated stream (optionally cut at an arbitrary offset after the
@@ -204,6 +210,60 @@ func H16b() {
 			}
 		}
 		vAssert(listed == 1, "C16.messages.every-key-listed-once")
+	}
+	vReached("end")
+}
+
+// H16c: a failure right after the file_id record. The file_id record carries
+// an arbitrary file type byte and one unlisted field; for the types NewFile
+// rejects Decode fails before the record loop. Options do not change the
+// error or the bytes consumed, and the file_id record — which was complete —
+// is accounted for in the unknown-field list that is returned with the error.
+func H16c() {
+	t, num := vByte(), vByte()
+	_, found := getField(MesgNumFileId, num)
+	vAssume(!found)
+	var body bytes.Buffer
+	body.Write([]byte{0x40, 0, 0, 0, 0, 2, 0, 1, 0x00, num, 1, 0x02})
+	body.Write([]byte{0x00, t, vByte()})
+	body.Write([]byte{0x41, 0, 0, 20, 0, 1, 3, 1, 0x02, 0x01, 77})
+	hdr := make([]byte, 14)
+	vHeader14(hdr, uint32(body.Len()))
+	var out bytes.Buffer
+	out.Write(hdr)
+	out.Write(body.Bytes())
+	fc := dyncrc16.Checksum(out.Bytes())
+	out.Write([]byte{byte(fc), byte(fc >> 8)})
+	data := out.Bytes()
+	rb := &vReader{data: data, failAt: -1}
+	base, berr := Decode(rb)
+	useLog, uf, um := vBool(), vBool(), vBool()
+	var opts []DecodeOption
+	if useLog {
+		opts = append(opts, WithLogger(&vLogger{}))
+	}
+	if uf {
+		opts = append(opts, WithUnknownFields())
+	}
+	if um {
+		opts = append(opts, WithUnknownMessages())
+	}
+	r := &vReader{data: data, failAt: -1}
+	f, err := Decode(r, opts...)
+	vAssert((err == nil) == (berr == nil) && r.pos == rb.pos && (f == nil) == (base == nil), "C16.options.same-error")
+	if f != nil && uf {
+		ok := len(f.UnknownFields) == 1
+		if ok {
+			u := f.UnknownFields[0]
+			ok = u.MesgNum == MesgNumFileId && u.FieldNum == num && u.Count == 1
+		}
+		vAssert(ok, "C16.fields.completed-file-id-record-is-accounted-for")
+		if err != nil {
+			vReached("failed-after-file-id")
+		}
+	}
+	if f != nil && um {
+		vAssert(f.UnknownMessages != nil && len(f.UnknownMessages) == 0, "C16.messages.exact")
 	}
 	vReached("end")
 }
